@@ -228,7 +228,7 @@ def _labels(case):
 
 def _run_hyp(arg):
     seed_value, n = arg
-    acc = Acc()
+    acc = runner.track(Acc())
 
     def body(case):
         try:
